@@ -721,14 +721,59 @@ def _gate_content(ctx, m, rep, cl):
                 okm = it == ("attr", SELF, "_preserve_addresses") and not conds and elt[0] == "compare" and elt[1] == ("in",) and elt[2][1] == tgt and elt[2][0] in (ipobj,)
         rep.ob(cl + ".gate-membership", f.name, okm, "membership disjunct: %s; expected any(ip in n for n in self._preserve_addresses) over ALL preserved networks" % detail, w, key=cl + ".gate-membership|should_anonymize")
         rep.ob(cl + ".gate-disjuncts", f.name, len(dis) == 2, "gate has %d disjuncts" % len(dis), w, nontrivial=False)
-    # mask predicate: pure function of its integer
+    # mask predicate: pure function of its integer, and one of the known "at most one 0/1 transition" idioms
     fm = m.method(m.v4, "_is_mask")
     rep.analysed(fm)
     for path in m.A.paths(fm).paths:
+        rep.ob(cl + ".mask-idiom", fm.name, path.kind == "return" and not path.conds and _mask_idiom(path.returned(), ("param", fm.params[1])),
+               "mask predicate returns %s; expected a known idiom for 'the 31 adjacent-bit transitions (x ^ (x >> 1)) & 0x7FFFFFFF contain at most one set bit' "
+               "(d & ((0xFFFFFFFF ^ d) + 1)) == d, (d & (d - 1)) == 0 or (d & -d) == d — the arithmetic identity itself is a trusted fact, the constants and shape are checked" % show(path.returned())[:200],
+               where(fm), key=cl + ".mask-idiom|_is_mask")
         r = path.returned()
         leaves = {s for s in subterms(r) if s[0] in ("param", "global", "attr", "builtin", "unbound")} if r else set()
         ok = path.kind == "return" and leaves <= {("param", fm.params[1])} and not list(path.calls())
         rep.ob(cl + ".mask-pure", fm.name, ok, "mask predicate is a call-free function of its integer argument only (leaves %s)" % sorted(show(x) for x in leaves), where(fm))
+
+
+def _comm(t, op):
+    """operands of a commutative binop, in both orders"""
+    if t[0] == "binop" and t[1] == op:
+        return [(t[2], t[3]), (t[3], t[2])]
+    return []
+
+
+def _mask_idiom(r, x):
+    """r is a recognised 'at most one transition between adjacent bits of the 32-bit word x' predicate."""
+    if not (r[0] == "compare" and r[1] == ("==",) and len(r[2]) == 2):
+        return False
+    for lhs, rhs in ((r[2][0], r[2][1]), (r[2][1], r[2][0])):
+        # d candidates: any subterm of lhs of the form (x ^ (x >> 1)) & 0x7FFFFFFF
+        for d in set(subterms(lhs)):
+            ok_d = False
+            for a, b in _comm(d, "&"):
+                if b == ("const", 0x7FFFFFFF):
+                    for p, q in _comm(a, "^"):
+                        if p == x and q == ("binop", ">>", x, ("const", 1)):
+                            ok_d = True
+            if not ok_d:
+                continue
+            # A: (d & ((0xFFFFFFFF ^ d) + 1)) == d     C: (d & -d) == d
+            if rhs == d:
+                for a, b in _comm(lhs, "&"):
+                    if a == d:
+                        for u, v in _comm(b, "+"):
+                            if v == ("const", 1) and (d, ("const", 0xFFFFFFFF)) in _comm(u, "^"):
+                                return True
+                            if v == ("const", 1) and u == ("unop", "~", d):
+                                return True
+                        if b == ("unop", "-", d):
+                            return True
+            # B: (d & (d - 1)) == 0
+            if rhs == ("const", 0):
+                for a, b in _comm(lhs, "&"):
+                    if a == d and b == ("binop", "-", d, ("const", 1)):
+                        return True
+    return False
 
 
 def c05(ctx, rep):
@@ -741,7 +786,7 @@ def c05(ctx, rep):
     )
     rep.rule = "one obligation per clause instance on real paths/terms"
     rep.trust(*TRUST_IP)
-    rep.assume("_is_mask's bit twiddle accepts exactly the 64 mask/wildcard words (undecided here: arithmetic identity over 32-bit integers)")
+    rep.assume("the recognised bit idioms ('d & (~d + 1) == d' etc. on the 31 adjacent-bit transitions) accept exactly the 64 mask/wildcard words: the arithmetic identity is trusted, only shape and constants are checked")
     _undo_threading(ctx, m, rep, "C05")
     _gate_content(ctx, m, rep, "C05")
     # _preserve_addresses built from every element
